@@ -154,10 +154,10 @@ def run_retro(ctx, focus):
         if key not in seen:
             seen.add(key)
             tlc_inputs.append(e["rows"])
-    if len(tlc_inputs) > (150 if ctx.quick else 2500):
-        tlc_inputs = rnd.sample(tlc_inputs, 150 if ctx.quick else 2500)
+    if len(tlc_inputs) > (90 if ctx.quick else 2500):
+        tlc_inputs = rnd.sample(tlc_inputs, 90 if ctx.quick else 2500)
     cases = make_cases(ctx, rnd, tlc_inputs)
-    seeds = 3 if ctx.quick else 12
+    seeds = 2 if ctx.quick else 12
     traces, not_returned, returned_by_op = [], {}, {}
     for op, rs, params in cases:
         for k in range(seeds if op not in ("combofilter", "optimal") else 1):
